@@ -375,6 +375,87 @@ def flatten_expect(world, cname, raw, expect_all):
     return out
 
 
+
+# ------------------------------------------------------------------ C19: observed dictionaries judged in Coq
+def _num(ftype, x):
+    """a number as the integer the Coq model compares: ints as they are, floats by their bit pattern"""
+    import struct as _st
+    if ftype.startswith("Float"):
+        x = float(x)
+        if x == 0.0: x = 0.0
+        return _st.unpack("<q", _st.pack("<d", x))[0]
+    return int(x)
+
+
+def _flat(ftype, v):
+    if isinstance(v, (list, tuple)):
+        out = []
+        for x in v: out += _flat(ftype, x)
+        return out
+    return [_num(ftype, v)]
+
+
+def kind_term(world, cname):
+    spec = world["classes"][cname]
+    out = []
+    for i, f in enumerate(spec["fields"]):
+        k = f[1]
+        if k == "scalar":
+            d = 0
+            if len(f) > 3 and f[3]: d = f[3].get("default", f[3].get("factory"))
+            t = "KNum %s" % zlit(_num(f[2], d))
+        elif k == "array":
+            if all(x is not None for x in f[3]):
+                n = 1
+                for x in f[3]: n *= x
+                t = "KArrFixed %s" % zlist([_num(f[2], 0)] * n)
+            else:
+                t = "KArrDyn"
+        elif k == "string":
+            t = "KArrDyn"
+        elif k == "nested":
+            t = "KNested %s" % kind_term(world, f[2])
+        else:
+            raise ValueError(k)
+        out.append("(%s, %s)" % (natlit(i), t))
+    return "[" + "; ".join(out) + "]"
+
+
+def oval_term(world, cname, raw):
+    spec = world["classes"][cname]
+    out = []
+    for f in spec["fields"]:
+        v = raw[f[0]]
+        if f[1] == "scalar": out.append("ONum %s" % zlit(_num(f[2], v)))
+        elif f[1] == "array": out.append("OArr %s" % zlist(_flat(f[2], v)))
+        elif f[1] == "string": out.append("OArr %s" % zlist(list(v.encode("utf8"))))
+        elif f[1] == "nested": out.append("OObj %s" % oval_term(world, f[2], v))
+    return "[" + "; ".join(out) + "]"
+
+
+def dv_term(world, cname, d):
+    spec = world["classes"][cname]
+    byname = {spec.get("rename", {}).get(f[0], f[0]): (i, f) for i, f in enumerate(spec["fields"])}
+    out = []
+    for key, x in d.items():
+        if key not in byname:
+            out.append("(%s, DNum 0)" % natlit(900 + len(out))); continue       # a key that names no field: rejected by the judgement
+        i, f = byname[key]
+        if f[1] == "nested" and isinstance(x, dict): t = "DDict %s" % dv_term(world, f[2], x)
+        elif f[1] == "string" and isinstance(x, str): t = "DArr %s" % zlist(list(x.encode("utf8")))
+        elif f[1] == "array" and isinstance(x, (list, tuple)): t = "DArr %s" % zlist(_flat(f[2], x))
+        elif f[1] == "scalar" and isinstance(x, (int, float)) and not isinstance(x, bool): t = "DNum %s" % zlit(_num(f[2], x))
+        else: t = "DDict []" if f[1] != "nested" else "DNum 0"                  # wrong kind of entry: rejected
+        out.append("(%s, %s)" % (natlit(i), t))
+    return "[" + "; ".join(out) + "]"
+
+
+def dict_cases_file(items):
+    body = "From Coq Require Import ZArith List.\nImport ListNotations.\nFrom XO Require Import AllocSpec DictForm.\nOpen Scope Z_scope.\n"
+    body += "Definition cs : list dcase := [\n  " + ";\n  ".join("mkDictCase %s %s %s" % it for it in items) + "\n].\n"
+    body += 'Goal True. idtac "@@dict". exact I. Qed.\nEval vm_compute in (failing dict_ok 0%nat cs).\n'
+    return body
+
 def run(ctx):
     pid = ctx.pid
     bud = BUDGET[ctx.tier]
@@ -433,6 +514,35 @@ def run(ctx):
         for sig, what, k in judge_case(pid, c, r):
             if sig not in bysig or k < bysig[sig][2]:
                 bysig[sig] = (i, what, k)
+    ndict = 0
+    if pid == "C19":
+        # every dictionary the real to_dict produced, judged by the certified order-insensitive judgement DictForm.dict_ok
+        # against the class description and the value the model holds for the source object
+        items = []; where = []
+        for i, (c, r) in enumerate(zip(cases, results)):
+            if "steps" not in r: continue
+            for k, (op, st) in enumerate(zip(c["ops"], r["steps"])):
+                if op["op"] == "to_dict_roundtrip" and st.get("ok") and "dict" in st:
+                    src = op["expect"][op["src"]]
+                    try:
+                        items.append((kind_term(c["world"], src["cls"]), oval_term(c["world"], src["cls"], src["raw"]), dv_term(c["world"], src["cls"], st["dict"])))
+                        where.append((i, k))
+                    except (ValueError, KeyError, TypeError):
+                        pass
+        SHD = 150
+        files = [("cases_C19d_%d" % (j // SHD), dict_cases_file(items[j:j + SHD])) for j in range(0, len(items), SHD)]
+        dres = coq_eval_many(ctx, files)
+        for j in range(0, len(items), SHD):
+            rc, out = dres["cases_C19d_%d" % (j // SHD)]
+            pairs = parse_pairs(out) if rc == 0 else None
+            if pairs is None:
+                bysig.setdefault("C19/dict-cases-do-not-evaluate", (-1, out[-800:], -1, {"broken": True})); continue
+            ndict += len(items[j:j + SHD])
+            for a, code in pairs:
+                i, k = where[j + a]
+                sig = "C19/dictionary-not-as-the-model-derives"
+                if sig not in bysig or k < bysig[sig][2]:
+                    bysig[sig] = (i, "to_dict gave %s" % json.dumps(results[i]["steps"][k].get("dict"))[:300], k)
     nplain = 0
     if pid == "C20":
         extra, nplain = plain_pickles(ctx, rng, 150 if ctx.tier == "quick" else 3000)
@@ -458,7 +568,7 @@ def run(ctx):
             nst += 1; hist["op:" + op["op"] + ("-" + op["kind"] if "kind" in op else "") + ("-refused" if op.get("refused") else "")] += 1
         hist["world:" + "+".join(c["world"]["order"]) + ("+refs" if any(f[1] == "ref" for f in c["world"]["classes"]["Outer"]["fields"]) else "")] += 1
     distinct = set(hashlib.sha1(json.dumps([c["world"], [{k: v for k, v in o.items() if k != "expect"} for o in c["ops"]]], sort_keys=True).encode()).hexdigest() for c in cases)
-    cov = dict(evaluations=nst + njson + nplain, distinct_nontrivial=len(distinct), histories=len(cases), json_roundtrips=njson, plain_objects_pickled_and_judged_in_coq=nplain,
+    cov = dict(evaluations=nst + njson + nplain, distinct_nontrivial=len(distinct), histories=len(cases), json_roundtrips=njson, plain_objects_pickled_and_judged_in_coq=nplain, dictionaries_judged_in_coq=ndict,
                rule="generated HybridClass definitions (scalars, strings, scalar arrays 1-D dynamic and 2-D static, nested hybrid classes, references to hybrid classes directly and inside a nested class, renamed fields, declared defaults / default factories) and histories of {construct, set scalar / string / whole array / array element at the top or through a nested dressed part, assign a dressed object to a plain field (copy) or to a reference field (share; refused across buffers), copy to same / other buffer / other context, move (refused for nested parts, non-movable and reference-bearing objects)%s}. After every step every attribute of every dressed object (recursively) is compared with the data of its _xobject and with the model's expectation; offsets and buffer identities of nested parts and referents are compared." % {"C18": "", "C19": ", to_dict -> from_dict", "C20": ", pickle.dumps/loads of groups of objects, then further writes on the restored objects"}[pid],
                samples=[{"world": cases[-1]["world"], "ops": [{k: v for k, v in o.items() if k != "expect"} for o in cases[-1]["ops"][:6]]}],
                distribution=dict(sorted(hist.items())), corpus_cases=len(corpus))
